@@ -1065,6 +1065,7 @@ fn run_ports(sc: &PortsSc, keep: bool) -> Report {
             violation = Some(Violation::new("Panic", format!("op #{k} {:?}: panic while running the simulation: {p}", op)));
         }
     }
+    probes.inc(if sc.guarded { "generated_guarded" } else { "generated_unguarded" });
     let mut rep = Report::from_log(sh.log.take());
     rep.violation = violation;
     rep.harness_error = harness_error;
@@ -1556,7 +1557,9 @@ impl Property for C15 {
                 matches!(v.class.as_str(), "StreamEntryLeak" | "ExhaustedEarly") && on_host
             }
             // O11: stream-table entries are keyed by the address pair only
-            KF_O11 => o11_exposed(p) && ((v.class == "Panic" && v.message.contains("is already connected")) || matches!(v.class.as_str(), "PortCollision" | "StreamEntryMissing")),
+            // ("missing stream socket": a stale RST of the old incarnation removed the client half of
+            // the new connection between its registration and the accept)
+            KF_O11 => o11_exposed(p) && ((v.class == "Panic" && (v.message.contains("is already connected") || v.message.contains("missing stream socket"))) || matches!(v.class.as_str(), "PortCollision" | "StreamEntryMissing")),
             _ => false,
         }
     }
